@@ -94,6 +94,10 @@ func runC05(p *Program, r *Report) {
 		c04stale(p, r, "C05.stale", fn)
 	}
 	cReaderHandle(p, r, "C05.rhandle")
+	// a control frame written between two frames of a compressed message carries its own header bits, and its payload is
+	// not a buffer that concurrent callers share outside the frame lock (seeds C05-O, C05-P)
+	shareAs(r, "C05", "C05", func(sub *Report) { c02rsv(p, sub, "C05.rsv") })
+	shareAs(r, "C05.ctl", "C05.ctl", func(sub *Report) { c02ctl(p, sub, "C05.ctl") })
 	// summaries into the evidence
 	sum := map[string]string{}
 	for _, fn := range p.Funcs {
